@@ -401,8 +401,8 @@ func writeRfc6184Item(t *Toks, it rfc6184Item) {
 	}
 }
 
-// cutBytes cuts b into exactly n consecutive chunks (possibly empty ones).
-func cutBytes(r *Rand, b []byte, n int) [][]byte {
+// h264CutBytes cuts b into exactly n consecutive chunks (possibly empty ones).
+func h264CutBytes(r *Rand, b []byte, n int) [][]byte {
 	cuts := make([]int, n+1)
 	cuts[n] = len(b)
 	for i := 1; i < n; i++ {
@@ -451,7 +451,7 @@ func randomH264Plan(r *Rand, nitems int) []rfc6184Item {
 		default:
 			hdr := byte(r.Intn(4)<<5 | r.Pick(r.Range(1, 23), r.Range(0, 31), 5, 1))
 			body := h264Body(r, r.Size(60, 0, 1, 2))
-			plan = append(plan, rfc6184Item{kind: 'f', hdr: hdr, chunks: cutBytes(r, body, r.Pick(2, 2, 3, 4, r.Range(2, 9)))})
+			plan = append(plan, rfc6184Item{kind: 'f', hdr: hdr, chunks: h264CutBytes(r, body, r.Pick(2, 2, 3, 4, r.Range(2, 9)))})
 		}
 	}
 	return plan
@@ -493,7 +493,7 @@ func genC10Dec(x *Ctx) {
 				typ, nri, avc := typ, nri, avc
 				x.Case(func(c *Case) {
 					hdr := byte(nri<<5 | typ)
-					plan := []rfc6184Item{{kind: 'f', hdr: hdr, chunks: cutBytes(c.R, h264Body(c.R, c.R.Range(0, 9)), c.R.Range(2, 4))}}
+					plan := []rfc6184Item{{kind: 'f', hdr: hdr, chunks: h264CutBytes(c.R, h264Body(c.R, c.R.Range(0, 9)), c.R.Range(2, 4))}}
 					if typ >= 1 && typ <= 23 {
 						plan = append(plan, rfc6184Item{kind: 's', nals: [][]byte{append([]byte{hdr}, h264Body(c.R, c.R.Range(0, 5))...)}})
 					}
@@ -526,9 +526,9 @@ func genC10Dec(x *Ctx) {
 			plan := randomH264Plan(c.R, c.R.Range(1, 4))
 			switch c.R.Intn(3) {
 			case 0:
-				plan = append(plan, rfc6184Item{kind: 'f', hdr: byte(0x80 | c.R.Intn(128)), chunks: cutBytes(c.R, h264Body(c.R, c.R.Range(0, 9)), c.R.Range(2, 4))})
+				plan = append(plan, rfc6184Item{kind: 'f', hdr: byte(0x80 | c.R.Intn(128)), chunks: h264CutBytes(c.R, h264Body(c.R, c.R.Range(0, 9)), c.R.Range(2, 4))})
 			case 1:
-				plan = append(plan, rfc6184Item{kind: 'f', hdr: byte(c.R.Intn(128)), chunks: cutBytes(c.R, h264Body(c.R, c.R.Range(0, 9)), 1)})
+				plan = append(plan, rfc6184Item{kind: 'f', hdr: byte(c.R.Intn(128)), chunks: h264CutBytes(c.R, h264Body(c.R, c.R.Range(0, 9)), 1)})
 			default:
 				plan = append(plan, rfc6184Item{kind: 's', nals: [][]byte{append([]byte{byte(c.R.Pick(0, 24, 25, 28, 29, 30, 31))}, h264Body(c.R, c.R.Range(0, 5))...)}})
 			}
